@@ -97,6 +97,7 @@ type Ctl struct {
 	crashAtMut int // freeze before this mutating op (1-based); 0 = never
 	failAt     map[int]bool
 	failAtMut  int // fail this mutating op (absolute count) with EIO, without effect; 0 = never
+	failAtOp   int // fail this operation of any kind (absolute count) with EIO, without effect; 0 = never
 	frozen     bool
 	budget     int
 	keepLog    bool
@@ -124,6 +125,7 @@ func Reset(c Config) {
 	ctl.crashAtMut = c.CrashAtMut
 	ctl.failAt = c.FailAt
 	ctl.failAtMut = 0
+	ctl.failAtOp = 0
 	ctl.frozen = false
 	ctl.budget = c.Budget
 	ctl.keepLog = c.KeepLog
@@ -179,6 +181,18 @@ func SetFailAtMut(k int) {
 	ctl.mu.Unlock()
 }
 
+// SetFailAtOp arms a one-shot I/O error on the k-th operation of any kind from now (k>=1),
+// reads, stats and directory listings included; 0 disarms.
+func SetFailAtOp(k int) {
+	ctl.mu.Lock()
+	if k == 0 {
+		ctl.failAtOp = 0
+	} else {
+		ctl.failAtOp = ctl.ops + k
+	}
+	ctl.mu.Unlock()
+}
+
 // SetBudget allows n more operations from now before the run is aborted.
 func SetBudget(n int) {
 	ctl.mu.Lock()
@@ -225,6 +239,11 @@ func begin(name string, mutating bool, path string) error {
 	if !frozen && mutating && ctl.failAtMut > 0 && ctl.mut == ctl.failAtMut {
 		fail = true
 		ctl.failAtMut = 0
+		ctl.fired["eio-at-"+name+"-"+pathClass(path)]++
+	}
+	if !frozen && ctl.failAtOp > 0 && ctl.ops == ctl.failAtOp {
+		fail = true
+		ctl.failAtOp = 0
 		ctl.fired["eio-at-"+name+"-"+pathClass(path)]++
 	}
 	if fail {
